@@ -256,3 +256,58 @@ Proof. unfold check_C20b, run_C20b. apply check_run_u_l, segs_cover_prep_l. Qed.
 (** the loaded dictionary of the prepared input is [load_b] of the bytes *)
 Lemma load_prep_l v : load (in_dfile (prep v)) = load_b (in_dfile v).
 Proof. rewrite in_dfile_prep. apply prep_dfile_load. Qed.
+
+(** * the prepared input without queries *)
+Lemma in_raws_prep0_l v : in_raws (prep0 v) = flat_map file_lines (in_fbytes v).
+Proof. exact (in_raws_prep_l v). Qed.
+Lemma model_create_prep0_l v :
+  model_create (modelize (prep0 v))
+  = create_bytes (in_chars v) (in_cg v) (in_max_size v) (in_max_seq v) (in_fbytes v) (in_arr v) (in_hp v).
+Proof. rewrite model_create_modelize, in_raws_prep0_l. reflexivity. Qed.
+Lemma in_dfile_prep0 v : in_dfile (prep0 v) = prep_dfile (in_dfile v).
+Proof. exact (in_dfile_prep v). Qed.
+Lemma segs_cover_prep0_l v : segs_cover (prep0 v) = true.
+Proof. exact (segs_cover_prep_l v). Qed.
+Lemma in_queries_prep0 v : in_queries (prep0 v) = [].
+Proof. reflexivity. Qed.
+Lemma in_queries_prep v : in_queries (prep v) = prep_queries v.
+Proof. reflexivity. Qed.
+
+(** * [check_closest_m] is [check_closest] with the oracle built by the model *)
+Lemma check_closest_m_eq (d0 d : dict) q a : (forall e, In e d -> In (fst e) (map fst d0)) ->
+  check_closest (segs_of_dict d0) d q a = check_closest_m d q a.
+Proof.
+  intro H. unfold check_closest, check_closest_m. destruct d as [|e d']; [reflexivity|].
+  rewrite (with_dists_m (fst q) d0 (snd (snd q)) (e :: d') H). reflexivity.
+Qed.
+
+Lemma keys_self (d : dict) : forall e, In e d -> In (fst e) (map fst d).
+Proof. intros e He. apply in_map. exact He. Qed.
+
+Lemma check_closest_m_ok (d : dict) (q : query) g :
+  check_closest_m d q (L [g; closest_v (closest_m (fst q) (snd (snd q)) d)]) = true.
+Proof.
+  rewrite <- (check_closest_m_eq d d q _ (keys_self d)).
+  rewrite <- (closest_segs_of_dict_l (fst q) d d (snd (snd q)) (keys_self d)).
+  pose proof (check_closest_ok (segs_of_dict d) d q (covered_segs_of_dict d d (keys_self d))) as H.
+  unfold answer_v in H. unfold check_closest in *. destruct d as [|e d']; [exact H|].
+  destruct (with_dists (fst q) (segs_of_dict (e :: d')) (snd (snd q)) (e :: d')); exact H.
+Qed.
+
+Lemma check_closest_m_sound_l (d : dict) norm nq qc a :
+  check_closest_m d (norm, (nq, qc)) a = true ->
+  (d = [] -> exists g, a = L [g; L []]) /\
+  (d <> [] ->
+   exists g wv fz, a = L [g; L [L [wv; I fz]]] /\
+     In (v_bytes wv, Z.to_N fz) d /\
+     forall e', In e' d ->
+       (kdist_m norm qc (v_bytes wv, Z.to_N fz) <= kdist_m norm qc e')%Q /\
+       ((kdist_m norm qc e' == kdist_m norm qc (v_bytes wv, Z.to_N fz))%Q -> snd e' <= Z.to_N fz)).
+Proof.
+  intro H. rewrite <- (check_closest_m_eq d d _ _ (keys_self d)) in H.
+  destruct (check_closest_sound_l _ _ _ _ _ _ H) as [S0 S1]. split; [exact S0|].
+  intro Hne. destruct (S1 Hne) as [_ (g & wv & fz & Ea & Hin & Hall)].
+  exists g, wv, fz. split; [exact Ea|]. split; [exact Hin|]. intros e' He'.
+  specialize (Hall e' He'). unfold kdist, kseg in Hall.
+  rewrite (seg_of_dict_l d _ (keys_self d _ Hin)), (seg_of_dict_l d _ (keys_self d _ He')) in Hall. exact Hall.
+Qed.
